@@ -134,7 +134,8 @@ def run_case(spec):
         dups.append((i, k, float(pn['values'][i, k]) * r.choice([0.5, 0.9, 1.1, 1.5])))
     pn['dups'] = dups
     case['frame'] = gen.panel_frame(pn, r, shuffle=True)
-  if kind == 'rename' and spec['idx'] % 5 in (0, 1, 2) and G >= 4:
+  unit_scaled = any(f.startswith('unit=') for f in case['panel']['features'])
+  if kind == 'rename' and spec['idx'] % 5 in (0, 1, 2) and G >= 4 and not unit_scaled:
     # two geos with EXACTLY equal single-geo required impact but different volume (one is the other mirrored in
     # time plus a constant, integer-valued so the arithmetic is exact), and n_geos_max cutting between them
     pn = case['panel']
@@ -173,6 +174,11 @@ def run_case(spec):
             'counters': {'search_raised': 1}, 'sets': {'transforms': [kind]}, 'violations': violations,
             'sample': None, 'outcome': tag + ':raised', 'case': sl.describe(case) if violations else None}
   da, db = a['designs'], b['designs']
+  if any(sl.has_nan(d['score']) for d in da + db):
+    # constant / all-zero series give NaN scores and exactly tied means: a degenerate input, not judged
+    return {'nontrivial': False, 'fp': util.fp([desc, kind, which]), 'classes': ['nan-scores'],
+            'counters': {'nan_score_pairs': 1}, 'sets': {'transforms': [kind]}, 'violations': [], 'sample': None,
+            'outcome': tag + ':nan'}
   counters['pairs_compared'] += 1
   counters['pairs_with_restated_rows'] += bool(case['panel'].get('dups'))
   budget_scoring = which == 'exhaustive' and case['params'].get('budget_range') is not None
